@@ -1,6 +1,7 @@
 import HdVerif.Model.Json
 import HdVerif.Model.PMap
 import HdVerif.Model.PMapRead
+import HdVerif.Model.PMapVolume
 open Lean HdVerif HdVerif.Drv HdVerif.Gen HdVerif.Codec HdVerif.PMap
 
 def getMapping (j : Json) : Except String Mapping := do
@@ -44,6 +45,12 @@ def getSelector (j : Json) : Except String Selector := do
 def labelsJson (ms : Option (List Mapping)) : Json :=
   match ms with | none => Json.null | some l => Json.arr (l.map (fun m => Json.str m.label)).toArray
 
+def getOptRat (j : Json) (k : String) : Except String (Option Rat) :=
+  match j.getObjVal? k with
+  | .error _ => pure none
+  | .ok .null => pure none
+  | .ok v => some <$> parseRat v
+
 def getReadOp (j : Json) : Except String ReadOp := do
   let op ← getStr j "op"
   if op == "pixelArray" then pure .pixelArray
@@ -60,9 +67,18 @@ def readResultJson : ReadResult → Json
   | .done => Json.str "done"
   | .failed _ => Json.str "err"
 
-def answer (o : PMObject) (q : Json) : Except String Json := do
+def answer (x : PMInput) (o : PMObject) (q : Json) : Except String Json := do
   let kind ← getStr q "q"
   let f ← getNat q "f"
+  if kind == "volume" then
+    -- `get_volume` with all transforms off: per slice the stored values of the frame written there (null: blank)
+    let r := getVolume x o (← getBool q "cached") (← getRatList q "ori") (← getOptRat q "hint") none none (← getBool q "allow_missing")
+    return (match r with
+      | .error e => Json.mkObj [("err", Json.str e.toString)]
+      | .ok (sp, origin, slices) => Json.mkObj [("ok", Json.mkObj [("spacing", ratToJson sp), ("origin", ratsToJson origin),
+          ("slices", Json.arr (slices.map (fun sl => match sl with
+            | none => Json.null
+            | some cells => intsToJson (cells.map cellValue))).toArray)])])
   if kind == "history" then
     -- a sequence of operations on ONE image object (held in memory or read lazily), from a fresh object
     let how := if (← getStr q "how") == "lazy" then Holding.lazy else Holding.memory
@@ -105,7 +121,7 @@ def handlers : List (String × Handler) := [
     | .error e => pure (Json.mkObj [("err", Json.str e.toString)])
     | .ok o =>
       let qs ← getArr j "queries"
-      let ans ← qs.toList.mapM (answer o)
+      let ans ← qs.toList.mapM (answer x o)
       pure (Json.mkObj [("ok", Json.mkObj [
         ("element", Json.str o.element), ("ba", (o.bitsAllocated : Json)), ("bs", (o.bitsStored : Json)),
         ("hb", (o.highBit : Json)), ("pr", (o.pixelRepresentation : Json)), ("rows", (o.rows : Json)),
